@@ -267,8 +267,94 @@ def mirror(facts: CppFacts):
         sb = [t.replace("BigEndian", "XEndian") for t in _skel(b[0]) if not (t == "return" and "Write" in base)]
         if sa != sb:
             res.add(f"buffer|{base}", f"ContiguousBuffer::{base} and ::{other} are not mirror images", a[0].file, a[0].line, base)
+    # aligned MemoryAccessor specialisations <CharT, A, 0, N>: every fixed-width integer type they name is uintN_t,
+    # and the specialisations are equal modulo their constants
+    src = facts.repo.read("runtime/cpp/emboss_memory_util.h")
+    specs = []
+    for m in re.finditer(r"struct\s+MemoryAccessor\s*<\s*CharT\s*,\s*(\d+)\s*,\s*(\d+)\s*,\s*(\d+)\s*>\s*\{", src):
+        i = m.end() - 1
+        depth = 0
+        j = i
+        while j < len(src):
+            if src[j] == "{":
+                depth += 1
+            elif src[j] == "}":
+                depth -= 1
+                if depth == 0:
+                    break
+            j += 1
+        specs.append((int(m.group(1)), int(m.group(2)), int(m.group(3)), src[i:j + 1], src.count("\n", 0, m.start()) + 1))
+    norm_bodies = {}
+    for align, off, bits, body, line in specs:
+        res.instances += 1
+        widths_used = {int(w) for w in re.findall(r"\buint(\d+)_t\b", body)}
+        if widths_used and widths_used != {bits}:
+            res.add(f"accessor|{align},{off},{bits}|width", f"MemoryAccessor<CharT, {align}, {off}, {bits}> accesses memory "
+                    f"through uint{sorted(widths_used - {bits})[0]}_t: a {bits}-bit load/store through another width "
+                    "truncates or over-reads", "runtime/cpp/emboss_memory_util.h", line, f"MemoryAccessor<{align},{off},{bits}>")
+        nb = re.sub(r"\buint\d+_t\b", "uintN_t", " ".join(tokens(body)))
+        nb = re.sub(rf"\b{bits}\b", "N", nb)
+        norm_bodies[(align, off, bits)] = nb
+    if len(specs) >= 2:
+        ref_key = sorted(norm_bodies)[0]
+        for k, nb in sorted(norm_bodies.items()):
+            if nb != norm_bodies[ref_key]:
+                res.add(f"accessor|{k[0]},{k[1]},{k[2]}|shape", f"MemoryAccessor<CharT, {k[0]}, {k[1]}, {k[2]}> differs from the "
+                        f"<{ref_key[0]}, {ref_key[1]}, {ref_key[2]}> specialisation by more than its width constants",
+                        "runtime/cpp/emboss_memory_util.h")
+    res.detail["memory_accessor_specialisations"] = [(a, o, b) for a, o, b, _, _ in specs]
     res.samples = [f"LittleEndianByteOrderer::{n}" for n in names[:3]]
     res.analysed = ["runtime/cpp/emboss_memory_util.h"]
+    return res
+
+
+def guarddeps(facts: CppFacts):
+    """R-GUARDDEPS: an accumulating update `x = x * b (+|-) d` guarded against overflow by a preceding
+    `if (cond) return false` must have a guard that depends on every operand of the update."""
+    res = RuleResult("R-GUARDDEPS")
+    upd = re.compile(r"\b(\w+)\s*=\s*\1\s*\*\s*(\w+)\s*([-+])\s*(\w+)\s*;")
+    for m in facts.functions + facts.methods:
+        body = m.body
+        for u in upd.finditer(body):
+            x, b, sign, d = u.groups()
+            res.instances += 1
+            before = body[:u.start()]
+            k = before.rfind("if (")
+            k2 = before.rfind("if(")
+            k = max(k, k2)
+            if k < 0:
+                res.add(f"{m.file}|{m.name}|{x}|unguarded", f"{m.name}: `{u.group(0)}` has no overflow guard", m.file, m.line, m.name)
+                continue
+            # balanced condition
+            i = before.index("(", k)
+            depth = 0
+            j = i
+            while j < len(before):
+                if before[j] == "(":
+                    depth += 1
+                elif before[j] == ")":
+                    depth -= 1
+                    if depth == 0:
+                        break
+                j += 1
+            cond = before[i:j + 1]
+            between = before[j + 1:]
+            tail = between.split("return false", 1)[1].replace("}", "").strip() if "return false" in between else "x;"
+            if tail.startswith(";"):
+                tail = tail[1:]
+            if "return false" not in between or ";" in tail:
+                res.add(f"{m.file}|{m.name}|{x}|unguarded", f"{m.name}: `{u.group(0)}` is not directly preceded by a rejecting "
+                        "guard", m.file, m.line, m.name)
+                continue
+            names_in = set(re.findall(r"[A-Za-z_]\w*", cond))
+            missing = [v for v in (x, b, d) if v not in names_in]
+            if missing:
+                res.add(f"{m.file}|{m.name}|{x}|{sign}|deps", f"{m.name}: the overflow guard `{' '.join(cond.split())[:90]}` before "
+                        f"`{u.group(0)}` does not depend on {missing}: it cannot reject exactly the updates that overflow "
+                        "(out-of-range text wraps instead of being rejected)", m.file, m.line, m.name)
+            elif len(res.samples) < 2:
+                res.samples.append(f"{m.name}: {' '.join(cond.split())[:80]} guards {u.group(0)}")
+    res.analysed = ["runtime/cpp/emboss_text_util.h"]
     return res
 
 
